@@ -52,6 +52,18 @@ def programs(seed, n):
                                 {"cmd": "prune", "opts": {"keep_delete": 1000000, "keep_pack": 0, "max_unused": "unlimited", "max_repack": "10%",
                                                           "instant": False, "early_delete_index": False}},
                                 {"cmd": "backup", "files": gen.evolve(rng, files) if k % 2 else files}]})
+    # directed: what an interrupted prune leaves behind (packs listed normally in the old index file and with a delete mark in
+    # the new one), then a backup that uses those packs again
+    for k in range(max(1, n // 10)):
+        files = gen.rand_files(rng, 3)
+        cfg = gen.rand_cfg(rng)
+        cfg.pop("version", None)
+        cfg.pop("index_flush", None)
+        progs.append({"id": "c05-%d-int%d" % (seed, k), "seed": seed * 1000 + 970 + k, "cfg": cfg, "probe": "none",
+                      "steps": [{"cmd": "backup", "files": files}, {"cmd": "forget", "snaps": [0]},
+                                {"cmd": "prune", "opts": {"keep_delete": 1000000, "keep_pack": 0, "max_unused": "unlimited", "max_repack": "10%",
+                                                          "instant": False, "early_delete_index": False}, "fail_at": 1},
+                                {"cmd": "backup", "files": files if k % 2 == 0 else gen.evolve(rng, files)}]})
     return progs
 
 
